@@ -2,6 +2,7 @@
  * exact-size heap block so that the byte after the terminator is an ASan redzone. */
 #include "config.h"
 #include <libast.h>
+extern unsigned int vt_base_level;   /* engine/tracker_shim.c */
 #include <sanitizer/asan_interface.h>
 #include <sanitizer/allocator_interface.h>
 
@@ -29,7 +30,7 @@ static char *exact_bytes(const char *t, long n)
     return p;
 }
 
-void c01_init(int cls) { g_cls = cls; memset(slot, 0, sizeof(slot)); libast_debug_level = 0; }
+void c01_init(int cls) { g_cls = cls; memset(slot, 0, sizeof(slot)); libast_debug_level = vt_base_level; }
 int c01_exists(int i) { return slot[i] != NULL; }
 
 /* ---- constructors (fresh object) and re-initialisers (existing, done object) */
@@ -233,7 +234,7 @@ char *c01_substr_to_ptr(int i, long idx, long cnt, long *alloc)
     *alloc = r ? (long) __sanitizer_get_allocated_size(r) : 0;
     return r;
 }
-void c01_free(void *p) { free(p); }
+void c01_free(void *p) { FREE(p); }   /* blocks handed out by libast: released the way user code does (tracking builds) */
 /* kind: 0 cmp 1 casecmp 2 ncmp 3 ncasecmp 4 comp(obj protocol) */
 int c01_cmp(int kind, int i, int o, long n)
 {
